@@ -250,7 +250,8 @@ def pdf_variants(kind, Sig, mu, which=("fresh", "Sigma+Lambda", "Sigma+Lambda+ln
       fresh / Sigma+Lambda / Sigma+Lambda+lndet : the three constructor argument combinations;
       sliced_neg : a larger batch sliced with NEGATIVE indices;
       updated    : built with other parameters, queried, then every component replaced in place by update();
-      queried    : fresh, after second-moment and mass queries;
+      queried    : fresh, after a broad set of read-only operations;
+      replaced_mu: another density with the same covariance whose mean is then replaced through the dataclass replace();
     and, for an even number of components R (the effective parameters then differ from (mu, Sig) and are returned):
       conditioned   : an R/2-component linear conditional conditioned on 2 points (layout r*2+n);
       prod_linear   : get_density() of [R/2-component density x 2-component LinearFactor], covariance update requested,
@@ -275,6 +276,8 @@ def pdf_variants(kind, Sig, mu, which=("fresh", "Sigma+Lambda", "Sigma+Lambda+ln
                 o.update(jnp.arange(R), mk_pdf(kind, Sig, mu))
                 return o
             out.append((w, b, mu, Sig))
+        elif w == "replaced_mu":
+            out.append((w, lambda: mk_pdf(kind, Sig, mu * -0.5 + 1.5).replace(mu=J(mu)), mu, Sig))
         elif w == "queried":
             def b():
                 return exercise_pdf(mk_pdf(kind, Sig, mu))
